@@ -118,3 +118,13 @@ package dtls
 //@ ensures no-master-secret: result1 == nil ==> len(result0.masterSecret) == 0
 //@ ensures no-suite-refused: isNil(internalState.Common.CipherSuite) ==> result1 != nil && result0 == nil
 //@ end
+
+// RFC 9147 4.2.1 / 6.1: epochs 0 (unprotected) .. 2 (handshake) are never used for application traffic, and a sender
+// must not let the 16-bit epoch wrap: a key update is accepted only if the next write epoch is the successor of the
+// current one *as an integer*, so that the write epoch can never come back to 0 ("application records never carry
+// epoch 0") or to an epoch whose keys were already used.
+//@ func validateNextWriteGeneration
+//@ ensures c07-next-epoch-not-zero: result == nil ==> next.Epoch != 0
+//@ ensures c07-next-epoch-above-current: result == nil ==> uint32(next.Epoch) == uint32(current.Epoch) + 1
+//@ ensures c07-last-epoch-refused: current != nil && next != nil && current.Epoch == 65535 ==> result != nil
+//@ end
